@@ -238,6 +238,16 @@ def clearLeftSf : Expr → Expr
   | .op to (.cst tv ts _) tr tsz tsf tp => .op to (.cst tv ts false) tr tsz tsf tp
   | e => e
 
+/-- the high part appended by `extend`: `tst(sb, cst(-1,xt), cst(0,xt))` with `sf = True`, or `cst(0,xt)` -/
+def extFill (sign : Bool) (sb : Expr) (xt : Nat) : Expr :=
+  if sign then .tst sb (mkCst (-1) xt) (mkCst 0 xt) xt true else cst 0 xt false
+
+/-- `(l + (-r)) ⇒ (l - r)`: the operator and right operand after the step -/
+def normNeg (o : Op) (r : Expr) : Op × Expr :=
+  match r with
+  | .uop ro rr _ _ _ => if o == Op.add && ro == Op.sub then (Op.sub, rr) else (o, r)
+  | _ => (o, r)
+
 /-- `[bit0] * n` -/
 def bit0s (n : Nat) : List Expr := List.replicate n bit0
 
@@ -419,39 +429,50 @@ def eqn2 : Nat → Opts → Op → Expr → Expr → Nat → Bool → Nat → R 
     | _ => eqn2tail fuel opts o l r size sf prop
 
 /-- the `+`/`-` normalisation steps of `eqn2_helpers`:
-    `((a ± c) ∘ r) ⇒ ((a ∘ r) ± c)`, `(l + (-r)) ⇒ (l - r)`, `(l ± (a ± c)) ⇒ ((l ± a) ± c)`. -/
+    `((a ± c) ∘ r) ⇒ ((a ∘ r) ± c)` (`normL`), `(l + (-r)) ⇒ (l - r)` (`normNeg`),
+    `(l ± (a ± c)) ⇒ ((l ± a) ± c)` (`normR`). -/
 def eqn2norm : Nat → Op → Expr → Expr → R (Op × Expr × Expr)
   | 0, _, _, _ => .error .fuel
   | fuel + 1, o, l, r => do
-    let (o, l, r) ← (match l with
-      | .op lo ll lr _ _ _ =>
-          if lr.isCst then
-            match Op.pm o lo with
-            | some _ => do
-                let nl ← callOp fuel o ll r
-                pure (lo, nl, lr)
-            | none => pure (o, l, r)
-          else pure (o, l, r)
-      | _ => pure (o, l, r) : R (Op × Expr × Expr))
-    let (o, r) := (match r with
-      | .uop ro rr _ _ _ => if o == Op.add && ro == Op.sub then (Op.sub, rr) else (o, r)
-      | _ => (o, r) : Op × Expr)
-    (match r with
-      | .op ro rl rr _ _ _ =>
-          if rr.isCst then
-            match Op.pm o ro with
-            | some x => do
-                let nl ← callOp fuel o l rl
-                pure (x, nl, rr)
-            | none => pure (o, l, r)
-          else pure (o, l, r)
-      | .uop ro rr _ _ _ =>
-          if rr.isCst then
-            match Op.pm o ro with
-            | some _ => throw .assert
-            | none => pure (o, l, r)
-          else pure (o, l, r)
-      | _ => pure (o, l, r) : R (Op × Expr × Expr))
+    let t ← normL fuel o l r
+    let d := normNeg t.1 t.2.2
+    normR fuel d.1 t.2.1 d.2
+
+/-- `((a lo c) o r) ⇒ ((a o r) lo c)` when `c` is a constant and `o, lo ∈ {+,-}` -/
+def normL : Nat → Op → Expr → Expr → R (Op × Expr × Expr)
+  | 0, _, _, _ => .error .fuel
+  | fuel + 1, o, l, r =>
+    match l with
+    | .op lo ll lr _ _ _ =>
+        if lr.isCst then
+          match Op.pm o lo with
+          | some _ => do
+              let nl ← callOp fuel o ll r
+              pure (lo, nl, lr)
+          | none => pure (o, l, r)
+        else pure (o, l, r)
+    | _ => pure (o, l, r)
+
+/-- `(l o (a ro c)) ⇒ ((l o a) (o·ro) c)` when `c` is a constant and `o, ro ∈ {+,-}` -/
+def normR : Nat → Op → Expr → Expr → R (Op × Expr × Expr)
+  | 0, _, _, _ => .error .fuel
+  | fuel + 1, o, l, r =>
+    match r with
+    | .op ro rl rr _ _ _ =>
+        if rr.isCst then
+          match Op.pm o ro with
+          | some x => do
+              let nl ← callOp fuel o l rl
+              pure (x, nl, rr)
+          | none => pure (o, l, r)
+        else pure (o, l, r)
+    | .uop ro rr _ _ _ =>
+        if rr.isCst then
+          match Op.pm o ro with
+          | some _ => throw .assert
+          | none => pure (o, l, r)
+        else pure (o, l, r)
+    | _ => pure (o, l, r)
 
 /-- first chain of rules for `e = (l o cst(rv, rs, rf))`; `none` = no rule returned. -/
 def eqn2cst : Nat → Opts → Op → Expr → Nat → Nat → Bool → Nat → Bool → R (Option Expr)
@@ -793,11 +814,7 @@ def extendExp : Nat → Bool → Expr → Nat → R Expr
     else do
       let xt := size - x.size
       let sb ← getitem fuel x ((x.size - 1 : Nat) : Int) (x.size : Int)
-      let xx ← if sign then do
-                  let t ← mkTst sb (mkCst (-1) xt) (mkCst 0 xt)
-                  pure (t.setSf true)
-               else pure (cst 0 xt false)
-      composer fuel [x, xx]
+      composer fuel [x, extFill sign sb xt]
 
 end
 
